@@ -980,14 +980,14 @@ impl IoUring {
     }
 
     pub fn get_next_sqe_slot(&mut self) -> Option<*mut IoUringSubmissionQueueEntry> {
-        let next = self.submission_queue.tail + 1;
+        let next = self.submission_queue.tail.wrapping_add(1);
         let shift = u32::from(self.flags.contains(IoUringParamFlags::IORING_SETUP_SQE128));
         let head = if self.flags.contains(IoUringParamFlags::IORING_SETUP_SQPOLL) {
             self.submission_queue.acquire_khead()
         } else {
             self.submission_queue.get_khead_relaxed()
         };
-        if next - head <= self.submission_queue.ring_entries {
+        if next.wrapping_sub(head) <= self.submission_queue.ring_entries {
             let index = (self.submission_queue.tail & self.submission_queue.ring_mask) << shift;
             let sqe = unsafe { self.submission_queue.entries.as_ptr().add(index as usize) };
             self.submission_queue.tail = next;
@@ -1007,7 +1007,7 @@ impl IoUring {
                 self.submission_queue.sync_ktail_relaxed();
             }
         }
-        tail - self.submission_queue.get_khead_relaxed()
+        tail.wrapping_sub(self.submission_queue.get_khead_relaxed())
     }
 
     pub fn get_next_cqe(&mut self) -> Option<&IoUringCompletionQueueEntry> {
